@@ -89,10 +89,10 @@ def run(ctx, prop):
     quick = ctx.quick()
     ctx.build()
     # 1. design level: exhaustive model check of the bounded instance
-    cfg = "MC_Server.cfg"
+    ctx.model_check("MC_Server", "MC_Server.cfg", timeout=2400, coverage=False)
     if not quick:
-        cfg = "MC_Server_deep.cfg"
-    ctx.model_check("MC_Server", cfg, timeout=2400, coverage=False)
+        # deeper exhaustive search restricted to the step kinds of this property's family
+        ctx.model_check("MC_Server", "MC_Server_deep_%s.cfg" % prop, timeout=3000, coverage=False)
     # 2. behaviours -> scripts
     batches = 1 if quick else 6
     nsim = {"C04": 60, "C12": 40, "C13": 30, "C17": 60}[prop] if quick else 150
@@ -115,6 +115,12 @@ def run(ctx, prop):
     # free-running concurrency that is sound under every interleaving: a chat with permanent members, churning
     # members and outsiders (C12); simultaneous bans by several administrators followed by a restart (C17)
     world = scripts[0]["world"]
+    # accounts listed as broken get an unusable stored hash (rotating over a few kinds)
+    kinds = ["", "plaintext", "$2a$04$short", "$2a$99$6Yq/TIlgjSD.FbARwtYs9ODnkHawonu1TJ5W2jJKfhnHwBIQTk./y"]
+    for i, sc in enumerate(scripts):
+        for b in sc["world"].get("broken", []):
+            if b in sc["world"]["accts"]:
+                sc["world"]["accts"][b] = dict(sc["world"]["accts"][b], rawhash=kinds[i % len(kinds)])
     if prop == "C12":
         for k in range(2 if quick else 10):
             scripts.append({"world": world, "steps": [{"op": "chatstorm", "members": 4, "churners": 3, "outsiders": 2, "lines": 25}]})
